@@ -81,6 +81,12 @@ impl<F> Allocator<F> {
         self.sectors.into_inner()
     }
 
+    /// Returns true if some sector's FAT entry names the given sector as its
+    /// successor, i.e. if the sector is not the first one of its chain.
+    pub fn has_predecessor(&self, sector_id: u32) -> bool {
+        self.fat.contains(&sector_id)
+    }
+
     pub fn open_chain(
         &mut self,
         start_sector_id: u32,
